@@ -292,3 +292,57 @@ Proof.
   rewrite append_assoc in Hs. rewrite startswith_long in Hs by exact Hlen.
   rewrite (has_char_prefix _ _ _ Hs Hcol) in Hm. discriminate.
 Qed.
+
+(* ---------------------------------------------------------------- run(), every argument combination, no timeout *)
+Lemma read_without_chunks marker out code :
+  has_char nl marker = false ->
+  no_early (marker ++ ":") out (dec code ++ String nl EmptyString) = true ->
+  forall chunks acc rest,
+  chunks <> [] -> (forall c, In c chunks -> c <> EmptyString) ->
+  acc ++ cat chunks = out ++ (marker ++ ":") ++ dec code ++ String nl EmptyString ->
+  read_without_output marker acc (app (map Chunk chunks) rest) = (inl tt, rest).
+Proof.
+  intros Hm Hf. induction chunks as [|c cs IH]; intros acc rest Hne Hall E; [congruence|].
+  assert (Hc : c <> EmptyString) by (apply Hall; left; reflexivity).
+  destruct c as [|c0 c']; [congruence|].
+  cbn [map app read_without_output].
+  destruct cs as [|c2 cs].
+  - simpl in E. rewrite append_nil_r in E. rewrite E, (parse_full marker out code Hm Hf). reflexivity.
+  - rewrite (parse_prefix marker out code Hm Hf (acc ++ String c0 c') (cat (c2 :: cs))).
+    + apply IH; [discriminate|intros x Hx; apply Hall; right; exact Hx|].
+      rewrite append_assoc. exact E.
+    + rewrite append_assoc. exact E.
+    + apply cat_nonempty; [discriminate|intros x Hx; apply Hall; right; exact Hx].
+Qed.
+
+Definition clean (sh : shell) : Prop := closed sh = true \/ pending sh = [].
+
+(* For every combination of job_name / stdin / capture_output, on a clean shell and a well-framed response
+   (no timeout, no EOF): the command is started exactly once; through the shell it returns
+   (strip out, code) or None according to capture_output, otherwise what the fresh process returns;
+   and the shell is clean afterwards. *)
+Theorem run_any_once flag sh q c out code fresh :
+  clean sh -> wf_cmd c out code ->
+  exists sh',
+    run_any flag sh q (c_marker c) (c_resp c) fresh
+    = (if use_shell q then inl (if r_capture q then Some (py_strip out, code) else None) else fresh,
+       sh', 1, if use_shell q then ViaShell else ViaSubprocess)
+    /\ clean sh'.
+Proof.
+  intros Hsh [Hm Hf (chunks & Hne & Hall & Hcat & Hresp)].
+  unfold run_any. destruct (use_shell q); [|exists sh; split; [reflexivity|exact Hsh]].
+  assert (P : closed (if closed sh then new_shell else sh) = false /\
+              pending (if closed sh then new_shell else sh) = []).
+  { destruct (closed sh) eqn:C; [split; reflexivity|]. destruct Hsh as [H|H]; [congruence|]. split; assumption. }
+  destruct P as [P1 P2].
+  assert (S : EmptyString ++ cat chunks = out ++ (c_marker c ++ ":") ++ dec code ++ String nl EmptyString).
+  { simpl. rewrite Hcat. unfold response. rewrite !append_assoc. reflexivity. }
+  unfold execute_any. rewrite P1. destruct (r_capture q).
+  - unfold execute. rewrite P1, P2, Hresp. cbn [app].
+    rewrite <- (app_nil_r (map Chunk chunks)).
+    rewrite (read_chunks (c_marker c) out code Hm Hf chunks EmptyString [] Hne Hall S).
+    eexists. split; [reflexivity|right; reflexivity].
+  - rewrite P2, Hresp. cbn [app]. rewrite <- (app_nil_r (map Chunk chunks)).
+    rewrite (read_without_chunks (c_marker c) out code Hm Hf chunks EmptyString [] Hne Hall S).
+    eexists. split; [reflexivity|right; reflexivity].
+Qed.
